@@ -24,8 +24,8 @@ def execute(job):
     from evo.core import geometry
     n, c, seed = job
     rng = random.Random(seed * 1000003 + n)
-    u = [1.0, 0.25, 16.0][n % 3]
-    ox, oy = OFFSETS[(n // 3) % 3], OFFSETS[(n // 9) % 3]
+    u = [1.0, 0.25, 16.0, 2.0 ** -10, 2.0 ** -13][n % 5]       # also small units: covariance singular values down to ~1e-9
+    ox, oy = (OFFSETS[(n // 5) % 3], OFFSETS[(n // 15) % 3]) if u >= 0.25 else (OFFSETS[0], OFFSETS[0])
     x, y = np.array(c["x"], dtype=float), np.array(c["y"], dtype=float)
     if c["kind"] != "shape":
         perm = list(range(len(x)))
